@@ -466,8 +466,8 @@ func newRangeCtx(c *core.Ctx) *rangeCtx {
 		startRes: map[*core.Func]map[int]bool{}, countRes: map[*core.Func]map[int]bool{}, busy: map[*core.Func]bool{},
 		startField: map[string]bool{}, lenField: map[string]bool{}, srcField: map[string]bool{}, dstField: map[string]bool{}}
 	if fv := m.FieldByKey("slices.batches"); fv != nil {
-		if sl, ok := fv.Type().(*types.Slice); ok {
-			r.recType = core.NamedName(sl.Elem())
+		if el := listElemOf(fv.Type()); el != nil {
+			r.recType = core.NamedName(el)
 		}
 	}
 	r.computeGrowParams()
@@ -476,6 +476,19 @@ func newRangeCtx(c *core.Ctx) *rangeCtx {
 	}
 	// record fields: start fields are assigned start values; length fields are initialised/assigned counts;
 	// source/destination fields index the tables handed to growing calls.
+	// (fields grouped into a nested struct of the record - rows{start, len} - are fields of the record)
+	recTypes := map[string]bool{r.recType: true}
+	if nt := m.Prog.LookupType(r.recType); nt != nil {
+		if st, ok := nt.Underlying().(*types.Struct); ok {
+			for i := 0; i < st.NumFields(); i++ {
+				if ft, ok := st.Field(i).Type().(*types.Named); ok {
+					if _, isStruct := ft.Underlying().(*types.Struct); isStruct && ft.Obj().Pkg() == st.Field(i).Pkg() {
+						recTypes[ft.Obj().Name()] = true
+					}
+				}
+			}
+		}
+	}
 	for _, f := range m.Funcs {
 		core.InspectNoLits(f.Body, func(n ast.Node) bool {
 			switch x := n.(type) {
@@ -489,7 +502,7 @@ func newRangeCtx(c *core.Ctx) *rangeCtx {
 						continue
 					}
 					k := fieldKeyOf(m, sel)
-					if ownerOf(k) != r.recType {
+					if !recTypes[ownerOf(k)] {
 						continue
 					}
 					if r.isStart(f, x.Rhs[i], 0) {
@@ -499,7 +512,7 @@ func newRangeCtx(c *core.Ctx) *rangeCtx {
 					}
 				}
 			case *ast.CompositeLit:
-				if core.NamedName(m.Info.TypeOf(x)) != r.recType {
+				if !recTypes[core.NamedName(m.Info.TypeOf(x))] {
 					return true
 				}
 				for _, e := range x.Elts {
